@@ -124,7 +124,49 @@ func ppText(toks []string) string {
 
 const ppExpr = `map(. as $p | try ($p | _query_fromstring) catch "reject")`
 
-func (rn *runner) pp(cs [][]string) {
+// outside the modelled core: the empty program, unary plus (a fork extension; the model has unary minus), and an
+// identifier directly followed by `(` (a call with arguments)
+func ppOutsideCore(toks []string) bool {
+	if len(toks) == 0 {
+		return true
+	}
+	isOp := func(t string) bool {
+		for _, o := range ppOps {
+			if o == t {
+				return true
+			}
+		}
+		return false
+	}
+	for i, t := range toks {
+		if t == "+" {
+			if i == 0 {
+				return true
+			}
+			p := toks[i-1]
+			if isOp(p) || p == "(" || p == "if" || p == "then" || strings.HasPrefix(p, "as:") || strings.HasPrefix(p, "label:") {
+				return true
+			}
+		}
+		if t == "(" && i > 0 {
+			p := toks[i-1]
+			if !(isOp(p) || p == "(" || p == "if" || p == "then" || strings.HasPrefix(p, "as:") || strings.HasPrefix(p, "label:")) && p != "?" && p != ")" && p != "end" {
+				return true
+			}
+		}
+	}
+	return false
+}
+
+func (rn *runner) pp(all [][]string) {
+	var cs [][]string
+	for _, c := range all {
+		if ppOutsideCore(c) {
+			rn.o.Stat("pp_outside_core", 1)
+			continue
+		}
+		cs = append(cs, c)
+	}
 	in := make([]any, len(cs))
 	for i, c := range cs {
 		in[i] = ppText(c)
